@@ -10,3 +10,9 @@ package chanstate
 //@   bounds-safe
 //@   ensures result1 == nil && retn(RemoteCommitChainTip, 0) != nil ==> result0 == retn(RemoteCommitChainTip, 0).Commitment.LocalHtlcIndex
 //@   ensures result1 == nil && retn(RemoteCommitChainTip, 0) == nil ==> result0 == c.RemoteCommitment.LocalHtlcIndex
+//@
+//@ // ---- reading the revocation store back refreshes THIS channel object (the chain watcher relies on that side effect and discards the
+//@ // ---- returned store): the database is handed the receiver itself, not a copy
+//@ func (c *OpenChannel) RemoteRevocationStore
+//@   props C06 C04
+//@   site call RemoteRevocationStore: assert arg(1) == c
